@@ -23,6 +23,8 @@ Branch by branch:
     one Add per item with explode, else one Add of the items joined by ","; then `RawQuery = q.Encode()` and the
     query cache `input.QueryParams = q`; header — `Header.Add(name, defaultValueText v)`; cookie —
     `AddCookie(name, defaultValueText v)` where defaultValueText joins an array by "," and Sprints a scalar;
+  * a parameter described by `content` (application/json, scalar schema): not found → no schema comes back, hence no
+    default; found → the single raw value is JSON-decoded (or taken as a string) and validated;
   * then: required and not found → error; value still nil → error iff found and not allowEmptyValue; otherwise the
     value (decoded, or the default itself) is validated against the schema.
 Not modelled: content parameters, object-valued parameters, allOf/anyOf/oneOf parameter schemas, styles other than
@@ -62,6 +64,7 @@ structure Param where
   required : Bool
   allowEmpty : Bool
   explode : Bool            -- the effective explode of parameter.SerializationMethod()
+  content : Bool := false   -- described by `content: {application/json: {schema}}` instead of `schema`
   deriving DecidableEq, Repr
 
 abbrev Key := Loc × String
@@ -184,8 +187,29 @@ def dfltValid (ty : PTy) (d : PVal) : Bool :=
   | .array t, .list as => as.all (scalarHasType t)
   | _, _ => false
 
+/-- decodeContentParameter + defaultContentParameterDecoder + validation, for a scalar JSON content parameter that is
+    present with raw values `ws`: one value; valid JSON is taken as such, anything else as the string itself -/
+def contentValid (ty : PTy) : List Wire → Bool
+  | [w] =>
+    match ty, w with
+    | .untyped, _ => true
+    | .sc .integer, .lit (.int _) => true
+    | .sc .boolean, .lit (.bool _) => true
+    | .sc .string, .lit (.str _) => true
+    | .sc .string, .empty => true
+    | .sc .string, .csv _ => true                     -- "a,b" and "1,2" are not JSON: the string itself
+    | .sc .string, .sprint as => as.length ≥ 2        -- "[1 2]" is not JSON; "[]" and "[1]" are (arrays)
+    | _, _ => false
+  | _ => false
+
 /-- ValidateParameter once the raw values `raw` of the parameter's key have been looked up: store afterwards and verdict -/
 def stepWith (skip : Bool) (p : Param) (raw : Option (List Wire)) (st : Store) : Store × Bool :=
+  if p.content then
+    -- a content parameter that is not found comes back WITHOUT its schema: no default is ever looked at
+    (match raw with
+     | none => (st, !p.required && p.loc != .cookie)   -- cookie: the ErrNoCookie of the lookup is returned as the error
+     | some ws => (st, contentValid p.ty (if p.loc = .cookie then ws.take 1 else ws)))   -- Request.Cookie: the first one
+  else
   match decode p raw with
   | .err => (st, false)
   | .val => (st, true)
@@ -211,9 +235,10 @@ def paramsPhase (skip multi : Bool) : List Param → Store → Store × Bool
 
 /-- the "Set default value" block runs with a non-nil default -/
 def defaultBranch (skip : Bool) (p : Param) (raw : Option (List Wire)) : Bool :=
-  match decode p raw with
-  | .nil false => !skip && p.dflt.isSome
-  | _ => false
+  !p.content &&
+  (match decode p raw with
+   | .nil false => !skip && p.dflt.isSome
+   | _ => false)
 
 /-- The code as it is: QUERY parameters are decoded from `RequestValidationInput.QueryParams`, a cache that
     `GetQueryParams` fills from the URL at its first use; defaults are written into the URL, and (repaired code) the
@@ -246,10 +271,38 @@ def InSync (view st : Store) : Prop := ∀ n : String, view.get (Loc.query, n) =
     without a value is rejected ("empty value is not allowed") unless allowEmptyValue is set.  The forwarded request
     is then stable but does not validate again. -/
 def DefaultReadsAsEmpty (skip : Bool) (p : Param) (st : Store) : Bool :=
-  !skip && !p.allowEmpty && decode p (st.get p.key) == .nil false &&
+  !p.content && !skip && !p.allowEmpty && decode p (st.get p.key) == .nil false &&
   (match p.dflt with
    | some d => encodeDefault p d != [] && (p.ty == .untyped || encodeDefault p d == [.empty])
    | none => false)
+
+/-- "Set default value": `value = schema.Default`, but the first allOf member that has a default wins -/
+def effDefault (own : Option PVal) : List (Option PVal) → Option PVal
+  | [] => own
+  | some d :: _ => some d
+  | none :: r => effDefault own r
+
+/-- a path-item parameter is overridden by an operation parameter with the same location and name -/
+def overridden (opParams : List Param) (p : Param) : Bool := opParams.any (fun q => q.key == p.key)
+
+/-- ExcludeRequestQueryParams skips query parameters -/
+def excluded (exq : Bool) (p : Param) : Bool := exq && p.loc == .query
+
+/-- the parameters ValidateRequest hands to ValidateParameter, in the order of the calls: the path item's (not
+    excluded, not overridden), then the operation's (not excluded) -/
+def visited (exq : Bool) (pathParams opParams : List Param) : List Param :=
+  pathParams.filter (fun p => !excluded exq p && !overridden opParams p) ++
+  opParams.filter (fun p => !excluded exq p)
+
+/-- Spec: the effective parameters of the operation — the operation's own, plus those of the path item that the
+    operation does not redeclare; query parameters only if they are not excluded (a set; the order is immaterial) -/
+def Effective (exq : Bool) (pathParams opParams : List Param) (p : Param) : Prop :=
+  (p ∈ opParams ∨ (p ∈ pathParams ∧ ∀ q ∈ opParams, q.key ≠ p.key)) ∧ ¬ (exq = true ∧ p.loc = .query)
+
+/-- F-C13-9: a parameter described by `content` that is absent: decodeContentParameter returns no schema for a
+    parameter it did not find, so its default is never written -/
+def ContentParamDefault (skip : Bool) (p : Param) (st : Store) : Bool :=
+  p.content && !skip && p.dflt.isSome && p.loc != .path && (st.get p.key).isNone
 
 /-- the parameters of one operation have pairwise distinct (location, name) -/
 def keysDistinct : List Param → Bool
